@@ -567,6 +567,17 @@ def run_c15(tier, seed, replay=None):
                 fails.append({"case_index": k, "what": "consistently renaming the bound variables changed the answers",
                               "original": cs[o].get("surface", ""), "original_answers": impl[o].raw[:1500]})
         return fails
+    # alternatives of one arm that bind DIFFERENT names: a name only a later alternative binds is a new variable of that
+    # alternative, not the same-named variable of an enclosing scope
+    for _ in range(max(10, n // 6)):
+        op = rnd.choice(["match", "match", "matche", "matcha"])
+        alts = rnd.choice([[["list", "x"], ["list", "x", "y"]], [["list", "x"], ["ilist", "x", "y"]], ["x", ["list", "x", "y"]],
+                           [["list", "y"], ["list", "x"], ["list", "x", "y"]]])
+        val = rnd.choice([["list", 1], ["list", 1, 2], ["list", 3, 4]])
+        body_g = rnd.choice([[["eq", "x", 1]], [["eq", "r", ["list", "x"]]], [["neq", "x", 9], ["eq", "r", "x"]]])
+        pre = rnd.choice([[["eq", "y", 5]], [["eq", "y", 5], ["eq", "x", 7]], [["eq", "y", ["list", 0]]]])
+        cases.append(mk_case(DEFS, ["q", "r"], [["fresh", ["x", "y"], ["eq", "q", val]] + pre + [[op, "q", ["arm", ["pats"] + alts] + body_g]]],
+                             maxans=20, budget=2000, what="a name bound only by a later alternative of an arm must be new, not the enclosing variable of that name"))
     # ONE closure goal value (a closure-style relation call, a closure { } block) entered several times on the same path:
     # each entry re-evaluates the body, so its fresh variables are new each time (built through the API by the harness)
     draw = ["def", "draw", ["params", "l"], "closure", ["fresh", ["x"], ["lib", "member", "x", "l"]]]
